@@ -112,7 +112,7 @@ fn c13_bitmap_builder_2() {
     builder_n::<2, 72>(false)
 }
 
-// @tier: thorough
+// @tier: experimental
 // @timeout: 6000
 // @funcs: RtypeBitmapBuilder::{new,add,get_block,finalize}, RtypeBitmap::{contains,from_octets}
 // @bound: 0..=3 fully symbolic u16 types
@@ -122,7 +122,7 @@ fn c13_bitmap_builder_3() {
     builder_n::<3, 104>(false)
 }
 
-// @tier: thorough
+// @tier: experimental
 // @timeout: 6000
 // @mem: 24
 // @funcs: RtypeBitmap::iter, RtypeBitmapIter::next
